@@ -272,6 +272,16 @@ def run(ctx):
 
     _solver(ctx, model)
     _exact_divisions(ctx, model)
+    # "free of those variables" and "raises for input that is not affine" are
+    # decided by what the dependency mapper reports for a composite leaf (the
+    # collector asks it whether a call or subscript mentions a target; the
+    # solver, whether a parameter hides an unknown): a variable it passes over
+    # -- one that occurs only in a keyword argument -- ends up inside a
+    # "constant".  C09's rule instances on DependencyMapper are premises here.
+    from .c09 import DEP, _check_dep_coverage, _check_flag_table
+    dm_ = model.cls(f"{DEP}:DependencyMapper")
+    _check_flag_table(ctx, model, dm_)
+    _check_dep_coverage(ctx, model, dm_)
 
 
 def _composite_leaf(ctx, model, n, mem):
